@@ -8,7 +8,7 @@ from common import Infra
 LEVEL = "model_checking"
 
 METHODS = ["GET", "HEAD", "OPTIONS", "POST", "PUT", "PATCH", "DELETE", "TRACE", "CONNECT", "get", "post", "QUERY"]
-VARIANTS = ["plain", "override-header", "override-query", "dry-run-query", "dry-run-yes", "dry-run-only", "preview-only", "force-query", "trailing-slash", "double-slash"]
+VARIANTS = ["plain", "override-header", "override-header:DELETE", "override-header:PUT", "override-query", "dry-run-query", "dry-run-yes", "dry-run-only", "preview-only", "force-query", "trailing-slash", "double-slash"]
 
 
 def serve(ctx):
